@@ -210,6 +210,13 @@ func (rm *RpcMultiplexer) registerHandler(id uint64, c chan *goatorepo.Rpc) {
 	rm.mutex.Lock()
 	defer rm.mutex.Unlock()
 
+	if rm.rErr != nil {
+		// The read loop failed after the caller's readErrorIfDone check: nothing
+		// will ever be delivered to c, and closeError has already run.
+		close(c)
+		return
+	}
+
 	rm.handlers[id] = c
 }
 
